@@ -925,6 +925,18 @@ class Body:
                 spec = calls[t.t]
                 p = prev_sig(toks, i)
                 pt = toks[p].t if p is not None else ''
+                if isinstance(spec, list):
+                    # receiver-directed binding: [(regex over receiver text, spec), ...]; '' = no receiver
+                    rtxt0 = ''
+                    if pt in ('.', '->'):
+                        rtxt0 = untok(strip_ws(toks[recv_start(toks, p):p]))
+                    elif pt == '::':
+                        rtxt0 = toks[prev_sig(toks, p)].t + '::'
+                    for rx, sp in spec:
+                        if re.fullmatch(rx, rtxt0):
+                            spec = sp; break
+                    else:
+                        raise ExtractionBreak('no callee binding for %s on receiver %r in %s' % (t.t, rtxt0, ctx['fn']['cname']))
                 if 'fn' not in spec:
                     key = len(args) if targs is None else (targs, len(args))
                     if key not in spec:
@@ -1238,9 +1250,14 @@ def extract_function(fn, unit, repo, filecache, contracts):
     }
     ctx['calls'].update(fn.get('calls', {}))
     throwers = set()
+    def _leaves(spec):
+        if isinstance(spec, list):
+            for _, sp in spec: yield from _leaves(sp)
+        elif 'fn' in spec: yield spec
+        else:
+            for sp in spec.values(): yield from _leaves(sp)
     for nm, spec in ctx['calls'].items():
-        specs = [spec] if 'fn' in spec else list(spec.values())
-        for s in specs:
+        for s in _leaves(spec):
             if s.get('throws'): throwers.add(s['fn'])
     ctx['throwers'] = throwers
     body = Body(list(toks[fd.body_open:fd.body_close + 1]), ctx)
